@@ -310,6 +310,16 @@ func VerifC11_Close() {
 			}
 		}
 		under := pubs[zzverif.NondetInt("under", 0, len(pubs)-1)]
+		if zzverif.Param("CHAIN", 0) == 1 && i > 0 && under != len(t.nodes)-1 {
+			zzverif.Assume(false) // chain shapes only: each node below the previous one
+		}
+		if zzverif.Param("SIBLINGS", 0) == 1 && under != 0 {
+			zzverif.Assume(false) // sibling shapes only: every node directly below the root publisher
+		}
+		if zzverif.Param("SIBLINGS", 0) == 1 && i == 0 {
+			t.attach(under, "sub", false) // the first sibling is a plain subscriber (the witness for "sideways")
+			continue
+		}
 		depth := 0
 		for x := under; x > 0; x = t.nodes[x].parent {
 			depth++
@@ -320,6 +330,9 @@ func VerifC11_Close() {
 		t.attach(under, kinds[zzverif.NondetInt("kind", 0, 4)], false)
 	}
 	when := zzverif.NondetInt("when", 0, 2)
+	if when == 1 && zzverif.Param("MIDSTREAM", 1) == 0 {
+		zzverif.Assume(false)
+	}
 	if when >= 1 {
 		t.publish()
 	}
